@@ -15,7 +15,7 @@ pub const FAULT_CLASSES: &[&str] = &[
     "ArithmeticOperatorNonInteger", "IndexingNonArray", "IndexingWithNonInteger", "UndefinedType", "NotAType",
     "RedeclarationAsType", "RedeclarationAsProcedure", "RedeclarationAsParameter", "RedeclarationAsVariable",
     "MustBeAReferenceParameter", "MainIsNotAProcedure", "MainMustNotHaveParameters", "MissingTrailingSemic", "MissingClosing",
-    "UnaryMinusNonInteger", "AssignmentLevels",
+    "UnaryMinusNonInteger", "AssignmentLevels", "UndefinedVariableNested", "NotAVariableNested",
 ];
 
 /// Inject one violation of rule `class` into a well-typed program.  Returns the new token list and the
@@ -44,6 +44,35 @@ pub fn inject(rng: &mut Rng, prog: &Prog, class: &str) -> Option<(Vec<Tok>, usiz
     // statement-level templates: (tokens, culprit lo, culprit hi) relative to the template
     let stmt: Option<(Vec<String>, usize, usize, &str)> = match class {
         "UndefinedVariable" => Some((vec!["undefv", ":=", "1", ";"].iter().map(|s| s.to_string()).collect(), 0, 1, class)),
+        // the same fault below other operators: no follow-up diagnostic may be added by the enclosing nodes
+        "UndefinedVariableNested" => {
+            let wrap: Vec<Vec<&str>> = vec![
+                vec!["printi", "(", "-", "undefv", ")", ";"],
+                vec!["printi", "(", "1", "+", "undefv", ")", ";"],
+                vec!["printi", "(", "(", "undefv", ")", "*", "2", ")", ";"],
+                vec!["printi", "(", "-", "(", "undefv", "/", "3", ")", ")", ";"],
+                vec!["if", "(", "undefv", "<", "1", ")", ";"],
+                vec!["while", "(", "1", "=", "-", "undefv", ")", ";"],
+                vec!["if", "(", "-", "undefv", ">=", "2", ")", ";", "else", ";"],
+            ];
+            let w = rng.pick(&wrap).clone();
+            if w[0] == "printi" && shadowed("printi") {
+                None
+            } else {
+                let at = w.iter().position(|t| *t == "undefv").unwrap();
+                Some((w.iter().map(|s| s.to_string()).collect(), at, at + 1, "UndefinedVariable"))
+            }
+        }
+        "NotAVariableNested" if !shadowed("printi") && !shadowed("exit") => {
+            let wrap: Vec<Vec<&str>> = vec![
+                vec!["printi", "(", "-", "exit", ")", ";"],
+                vec!["printi", "(", "2", "*", "exit", ")", ";"],
+                vec!["if", "(", "-", "exit", "<", "1", ")", ";"],
+            ];
+            let w = rng.pick(&wrap).clone();
+            let at = w.iter().position(|t| *t == "exit").unwrap();
+            Some((w.iter().map(|s| s.to_string()).collect(), at, at + 1, "NotAVariable"))
+        }
         "UndefinedProcedure" => Some((vec!["undefp", "(", ")", ";"].iter().map(|s| s.to_string()).collect(), 0, 4, class)),
         "NotAVariable" if !shadowed("printi") => Some((vec!["printi", ":=", "1", ";"].iter().map(|s| s.to_string()).collect(), 0, 1, class)),
         "CallOfNoneProcedure" if !shadowed("int") => Some((vec!["int", "(", ")", ";"].iter().map(|s| s.to_string()).collect(), 0, 4, class)),
